@@ -48,35 +48,31 @@ impl Regex {
     }
 
     /// Returns true if given string `s` could match the pattern if extended
-    /// by more characters.
-    ///
-    /// Technically it feeds the string `s` to the automaton of the regex and checks
-    /// that the automaton has not got into the state from which no match is possible.
-    /// Whenever that cannot be determined, it returns true.
+    /// by more characters. Whenever that cannot be determined, it returns true.
     pub fn is_partial_match(&self, s: &str) -> bool {
-        let dfa = match &self.dfa {
-            Some(dfa) => dfa,
-            None => return true,
-        };
+        self.can_start_with(s.as_bytes()).unwrap_or(true)
+    }
+
+    /// Tells if a string that starts with the given bytes can match the pattern.
+    ///
+    /// Technically it feeds the bytes to the automaton of the regex and checks
+    /// that the automaton has not got into the state from which no match is possible.
+    /// Returns `None` if that cannot be determined.
+    pub fn can_start_with(&self, bytes: &[u8]) -> Option<bool> {
+        let dfa = self.dfa.as_ref()?;
         let mut cache = dfa.create_cache();
-        let input = Input::new(s).anchored(Anchored::Yes);
-        let mut state = match dfa.start_state_forward(&mut cache, &input) {
-            Ok(state) => state,
-            Err(_) => return true,
-        };
-        for &byte in s.as_bytes() {
-            state = match dfa.next_state(&mut cache, state, byte) {
-                Ok(state) => state,
-                Err(_) => return true,
-            };
+        let input = Input::new(bytes).anchored(Anchored::Yes);
+        let mut state = dfa.start_state_forward(&mut cache, &input).ok()?;
+        for &byte in bytes {
+            state = dfa.next_state(&mut cache, state, byte).ok()?;
             if state.is_dead() {
-                return false;
+                return Some(false);
             }
             if state.is_quit() {
-                return true;
+                return None;
             }
         }
-        true
+        Some(true)
     }
 }
 
